@@ -215,6 +215,9 @@ fn replay(id: &'static str, path: &str) -> i32 {
     if let Some(hp) = hist_prop(id) {
         return histprop::replay(&hp, path);
     }
+    if replay_kind(path) == "hist" && id == "C13" {
+        return histprop::replay(&props::hist_family::c13_aux(), path);
+    }
     match id {
         "C10" => props::c10::replay(path),
         "C09" => props::c09::replay(path),
